@@ -75,6 +75,41 @@ def run_direct(pid, rec, cfg, sched):
     return plan
 
 
+def run_after_consumer(pid, rec, cfg, sched, how):
+    """History: a plan is built, a consumer narrows it (SpectrumAnalyzer with band=, which filters
+    the plan it was handed; or a caller who cuts the returned dict down), then the same
+    configuration is requested again.  The second plan is judged by the oracle like any other."""
+    from speckit.analysis import SpectrumAnalyzer
+    desc = {"kind": "after-consumer", "sched": sched, "cfg": cfg, "how": how}
+    rec.case(desc, nontrivial=False)
+    try:
+        first = call_scheduler(sched, cfg)
+        f = np.asarray(first["f"], dtype=float)
+        if len(f) < 4:
+            return None
+        if how == "band-analyzer":
+            lo, hi = float(f[len(f) // 3]), float(f[(2 * len(f)) // 3])
+            kw = analyzer_kwargs(cfg, sched)
+            SpectrumAnalyzer(np.zeros(int(cfg["N"])), float(cfg["fs"]), band=(lo, hi), **kw).plan()
+        else:
+            h = max(1, len(f) // 2)
+            for k in list(first.keys()):
+                v = first[k]
+                if hasattr(v, "__len__") and not isinstance(v, (str, bytes)) and len(v) == len(f):
+                    first[k] = v[:h]
+            if "nf" in first:
+                first["nf"] = h
+        plan = call_scheduler(sched, cfg)
+    except BaseException as e:   # noqa: BLE001
+        rec.blocked(f"history raised {type(e).__name__} (C02 / C05)")
+        return None
+    rec.count("plans_after_a_consumer_narrowed_the_previous_one")
+    if nontrivial_plan(plan):
+        rec.mark_nontrivial(desc)
+    check_plan(pid, plan, cfg, sched, rec, f"direct call after {how}")
+    return plan
+
+
 def analyzer_kwargs(cfg, sched, extra=None):
     kw = dict(olap=cfg["olap"], bmin=cfg["bmin"], Lmin=cfg["Lmin"], Jdes=cfg["Jdes"],
               Kdes=cfg["Kdes"], scheduler=sched)
@@ -205,6 +240,9 @@ def run_mixed_shard(pid, params, rec, extra_kinds=None):
             if extra is None and i % 8 == 0:
                 extra = {"scheduler_as_callable": True}
             run_analyzer(pid, rec, cfg, sched, extra)
+        if i % 6 == 1 and "fs_form" not in cfg:
+            run_after_consumer(pid, rec, cfg, gen.SCHEDS[(i // 6) % 4],
+                               "band-analyzer" if (i // 24) % 2 == 0 else "dict-cut")
         if extra_kinds:
             extra_kinds(rec, cfg, rng, i)
 
@@ -215,6 +253,8 @@ def replay_case(pid, case, rec, extra=None):
         run_direct(pid, rec, case["cfg"], case["sched"])
     elif kind == "analyzer":
         run_analyzer(pid, rec, case["cfg"], case["sched"], case.get("extra"))
+    elif kind == "after-consumer":
+        run_after_consumer(pid, rec, case["cfg"], case["sched"], case["how"])
     elif extra is not None:
         extra(case, rec)
     else:
